@@ -241,6 +241,11 @@ func c10Case(rng *rand.Rand, id string) cases.ScanCase {
 func checkC10(c *Ctx) {
 	c.Ev.Level = "fault_enumeration"
 	c.Ev.Rule = "CliRun.tla: every invocation of the plan may fail before / in the middle of / after its output; invariant AllOrNothing and termination (refuted with WaitsForSecondPipeline=FALSE = the code at 446285c). Real binary: a fault-free run under the fake git gives the invocation list and each output length L; then every invocation x offsets {0,1,L/2,L-1,L,after} (thorough: all offsets up to 256, then 64 spread) x modes {exit 128, SIGKILL (+ exit 1, SIGTERM, SIGPIPE, early stdin close)}; every reachable object deleted in turn; shallow marker; no repository; invalid option / gitconfig values; unresolvable ROOTs; each run judged by TLC (CliJudge); distinct = distinct (invocation, offset, mode) / invalid-input classes"
+	if os.Getenv("VERIF_GATE_ONLY") != "" { // development aid: only the gated-schedule part
+		env := newScanEnv(c, true, false)
+		checkGatedSchedules(c, &c10Env{c: c, env: env, fake: buildFakeGit(c), home: c.Scratch})
+		return
+	}
 	// the design
 	for _, plan := range []string{"PlainPlan", "RootsPlan"} {
 		res, err := tlcrun.Run(tlcrun.Job{Module: "CliRunMC", Cfg: cliRunCfg(plan, true), Workers: 4})
@@ -274,21 +279,23 @@ func checkC10(c *Ctx) {
 		Infra("Pipeline with ConsumerWaits=FALSE should refute AllOrNothing")
 	}
 	// the first pipeline (rev-list | copy-oids | cat-file --batch-check): either command may die
-	p1Cfg := func(nr, no, cap int, drop bool) string {
-		return fmt.Sprintf("SPECIFICATION Spec\nCONSTANTS\n  NRoots = %d\n  NObjs = %d\n  Cap = %d\n  DropWaitError = %s\nINVARIANTS AllOrNothing InOrder\nPROPERTY NeverHangs\nCHECK_DEADLOCK FALSE\n", nr, no, cap, tlaBool(drop))
+	p1Cfg := func(nr, no, cap int, drop, buffered bool) string {
+		return fmt.Sprintf("SPECIFICATION Spec\nCONSTANTS\n  NRoots = %d\n  NObjs = %d\n  Cap = %d\n  DropWaitError = %s\n  CopyBuffered = %s\nINVARIANTS AllOrNothing InOrder\nPROPERTY NeverHangs\nCHECK_DEADLOCK FALSE\n", nr, no, cap, tlaBool(drop), tlaBool(buffered))
 	}
 	p1shapes := [][3]int{{2, 3, 1}}
 	if !quick(c) {
 		p1shapes = append(p1shapes, [3]int{2, 4, 2}, [3]int{3, 3, 1}, [3]int{1, 5, 2})
 	}
 	for _, sh := range p1shapes {
-		res, err := tlcrun.Run(tlcrun.Job{Module: "Pipeline1", Cfg: p1Cfg(sh[0], sh[1], sh[2], false), Workers: 8})
-		if err != nil || !res.Completed {
-			Infra("Pipeline1 %v: %v\n%s\n%s", sh, err, res.ErrorText, res.Tail)
+		for _, buffered := range []bool{true, false} {
+			res, err := tlcrun.Run(tlcrun.Job{Module: "Pipeline1", Cfg: p1Cfg(sh[0], sh[1], sh[2], false, buffered), Workers: 8})
+			if err != nil || !res.Completed {
+				Infra("Pipeline1 %v: %v\n%s\n%s", sh, err, res.ErrorText, res.Tail)
+			}
+			c.AddTLC(fmt.Sprintf("Pipeline1 roots=%d objs=%d cap=%d copy-buffered=%v", sh[0], sh[1], sh[2], buffered), res.Generated, res.Distinct, res.Wall, "AllOrNothing, InOrder, NeverHangs; rev-list and cat-file --batch-check may die at any point")
 		}
-		c.AddTLC(fmt.Sprintf("Pipeline1 roots=%d objs=%d cap=%d", sh[0], sh[1], sh[2]), res.Generated, res.Distinct, res.Wall, "AllOrNothing, InOrder, NeverHangs; rev-list and cat-file --batch-check may die at any point")
 	}
-	res, _ = tlcrun.Run(tlcrun.Job{Module: "Pipeline1", Cfg: p1Cfg(2, 3, 1, true), Workers: 4})
+	res, _ = tlcrun.Run(tlcrun.Job{Module: "Pipeline1", Cfg: p1Cfg(2, 3, 1, true, true), Workers: 4})
 	if res == nil || res.Violated != "AllOrNothing" {
 		Infra("Pipeline1 with DropWaitError=TRUE should refute AllOrNothing")
 	}
@@ -478,6 +485,8 @@ func checkC10(c *Ctx) {
 		prs = append(prs, pr)
 	}
 	reportProto(c, "fault and invalid-input runs", prs)
+	// every interleaving of process steps and deaths TLC finds for the two pipelines, replayed through gated git processes
+	checkGatedSchedules(c, e)
 	c.Ev.Exhaustive = false
 }
 
